@@ -21,7 +21,7 @@ LEVEL = "exploration"
 TECHNIQUE = "generated models, call partitions and per-step settings (Hypothesis); differential across batch / session / REST channels and vs Euler reference with a settings schedule"
 RULE = ("cases = (stock/flow model with graphical function, run spec, requested equations [subset, order], partition of the run into "
         "run-step / run-steps k / stream-steps calls, per-call settings in {none, {}, constants, points}, flat or nested results, sessions over two scenarios with settings addressed to one, starts -8..2.5 incl. stop <= 0); "
-        "channels: run_scenarios df/dict/json, Python session + session_results (by time / by equation / flat), REST run, run-step, "
+        "channels: run_scenarios df/dict/json, REST run again with runspecs dt/2 and back (after the memo is full), Python session + session_results (by time / by equation / flat), REST run, run-step, "
         "run-steps, stream-steps, session-results, flat-session-results. non-trivial = the partition has >= 2 calls of different kinds "
         "or a setting at a step k >= 1, and dt != 1 or start != 1; distinct by case")
 ASSUMPTIONS = [
@@ -58,6 +58,24 @@ def _schedule(case):
 
 def _abstract(case):
     return case["model"] if case.get("model_kind") == "sd" else c04.to_abstract(case["model"])
+
+
+def _halve_dt(abstract):
+    """the same model on dt/2: numeric delay durations are stored in units of dt and keep their length in time"""
+    import copy
+    from decimal import Decimal
+
+    def walk(t):
+        if isinstance(t, list):
+            if t and t[0] == "delay" and not isinstance(t[2], list):
+                return ["delay", t[1], 2 * t[2], walk(t[3])]
+            return [walk(x) for x in t]
+        if isinstance(t, dict):
+            return {k: walk(v) for k, v in t.items()}
+        return t
+    a = walk(copy.deepcopy(abstract))
+    a["dt"], a["n"] = str(Decimal(abstract["dt"]) / 2), 2 * abstract["n"]
+    return a
 
 
 def _flatten_step(res, sm, sc):
@@ -242,6 +260,42 @@ def _check_case(case):
         for eq in eqs:
             if not cmp_series("rest-run:full", list(js[sm][sc]["equations"][eq].keys()), list(js[sm][sc]["equations"][eq].values()), ref0, eq):
                 return info, vs
+        # the same scenario again on a finer grid: only the run specs change, after a run that filled every memo
+        from decimal import Decimal
+        dt2 = Decimal(abstract["dt"]) / 2
+        abs2 = _halve_dt(abstract)
+        try:
+            ref2 = SM.RefModel(abs2, limit=1e9).run()
+        except E.Fragile:
+            ref2 = None
+        if ref2 is not None:
+            grid2 = SM.grid(abs2)
+            scale2 = max(scale, SM.model_scale(ref2))
+            resp = client.post("/run", json={"scenario_managers": [sm], "scenarios": [sc], "equations": eqs,
+                                             "settings": {sm: {sc: {"runspecs": {"dt": float(dt2)}}}}})
+            if resp.status_code != 200:
+                vs.append(Violation("rest-status:run-regrid", "POST /run with runspecs dt=%s -> %d %r" % (dt2, resp.status_code, resp.data[:200])))
+                return info, vs
+            js = json.loads(resp.data)
+            for eq in eqs:
+                ser = js[sm][sc]["equations"][eq]
+                if [float(t) for t in ser.keys()] != grid2:
+                    vs.append(Violation("grid:rest-run-regrid", "POST /run with runspecs dt=%s after a run with dt=%s: %s reported on %d times ending %r, expected %d ending %r"
+                                        % (dt2, abstract["dt"], eq, len(ser), list(ser.keys())[-3:], len(grid2), grid2[-3:])))
+                    return info, vs
+                for i, g in enumerate(ser.values()):
+                    if not SM.values_agree(float(g), ref2[eq][i], scale2, 2 * n):
+                        vs.append(Violation("value:rest-run-regrid", "POST /run with runspecs dt=%s after a run with dt=%s: %s(%r)=%r expected %r; model %r"
+                                            % (dt2, abstract["dt"], eq, grid2[i], g, ref2[eq][i], SM.sym_show(abstract))))
+                        return info, vs
+            # and back: the coarse grid again
+            resp = client.post("/run", json={"scenario_managers": [sm], "scenarios": [sc], "equations": eqs,
+                                             "settings": {sm: {sc: {"runspecs": {"dt": float(abstract["dt"])}}}}})
+            if resp.status_code == 200:
+                js = json.loads(resp.data)
+                for eq in eqs:
+                    if not cmp_series("rest-run-regrid-back:full", list(js[sm][sc]["equations"][eq].keys()), list(js[sm][sc]["equations"][eq].values()), ref0, eq):
+                        return info, vs
         iid = json.loads(client.post("/start-instance").data)["instance_uuid"]
         resp = client.post("/%s/begin-session" % iid, json={"scenario_managers": [sm], "scenarios": [sc], "equations": eqs})
         got = {eq: ([], []) for eq in eqs}
